@@ -13,7 +13,7 @@ for P in $CHECKS; do
     echo "$P exit=$RC violations=$V (no-input: $NF)"; echo "$OUT" | grep "^BROKEN" | cut -c1-300 | head -4
   fi
 done
-git -C /repo checkout -- .
+git -C /repo apply -R $PATCH 2>/dev/null; git -C /repo checkout -- .; git -C /repo status --short | head -3
 python3 translate/tables.py lean >/dev/null; python3 translate/terms.py lean >/dev/null; python3 translate/uff.py lean >/dev/null
 rm -rf /verif/evidence; mv /var/tmp/evidence.keep.$$ /verif/evidence
 echo "done $PATCH"
